@@ -198,7 +198,7 @@ def _shrink(case, ks, rounds=30):
 def hashseed_search(tier, seed, shard, nshards, stats):
     verif_seed = seed // 1000
     ks = hashseed.seeds_for(verif_seed, 8 if tier == "quick" else 64)
-    total = 200 if tier == "quick" else 2000
+    total = 300 if tier == "quick" else 2000
     n = (total + nshards - 1) // nshards
     cases = _collect(_compete_case(tier), n, seed)
     if shard == 0:
@@ -511,7 +511,7 @@ def _strhash(case):
 SUBS = [
     Sub("hashseed", check_hashseed, custom=hashseed_search, workers_quick=2, workers_thorough=16,
         budget_quick=50, budget_thorough=560),
-    Sub("order", check_order, strategy=strat_order, quick=350, thorough=12000, workers_quick=2,
+    Sub("order", check_order, strategy=strat_order, quick=600, thorough=12000, workers_quick=2,
         workers_thorough=16, budget_quick=30, budget_thorough=400),
 ]
 
@@ -537,6 +537,10 @@ REGRESSIONS = [
         "case": _reg([_ln(1, [["fill", " "], ["fqdn", "webKEY.corp.acme.org"], ["fill", " "],
                               ["raw", "password=dbKEY.corp.acme.org"], ["fill", " x"]])],
                      keywords=["KEY"], compete=["kw-in-hostname", "secret-is-token"])}),
+    Reg("keyword-equals-fqdn-across-hashseeds", "hashseed", {      # shrunk reproducer found by the search
+        "hashseeds": [0, 2],
+        "case": _reg([_ln(1, [["fqdn", "mail_a2.acme.org"]])], fqdn="mail_a2.acme.org",
+                     keywords=["mail_a2.acme.org"], compete=["kw-is-fqdn"])}),
     Reg("order-and-blank-lines", "order", _reg([
         _ln(1, [["fill", "link up"]]), dict(_BLANK), _ln(2, [["fill", "drop me"]]), _ln(3, [["ip", "1.2.3.4"]]),
         dict(_BLANK), _ln(4, [["fill", "drop me too"]])], patterns={"mode": "plain", "items": ["drop"]})),
